@@ -85,7 +85,7 @@ PROBES = ['resp-checked', 'resp-checked:fault-free', 'resp-checked:faulty', 'kee
           'kind:stream', 'kind:nobody', 'kind:error', 'kind:sfile', 'kind:bodygen', 'non-canonical-path', 'further-request-after-redirect',
           'short-read-fileobj', 'short-read-fileobj:return', 'short-read-fileobj:body', 'short-read-fileobj:body-nostream', 'status-class:1', 'status-class:2', 'status-class:3', 'status-class:4', 'status-class:5']
 TIERS = {
-    'quick': dict(runs=18000, wall=26, chunk=25, cfg=dict(max_requests=5, sizes=0, round_cap=6000)),
+    'quick': dict(runs=30000, wall=26, chunk=25, cfg=dict(max_requests=5, sizes=0, round_cap=6000)),
     'thorough': dict(runs=150000, wall=580, chunk=100, cfg=dict(max_requests=10, sizes=1, round_cap=30000)),
 }
 
